@@ -46,15 +46,51 @@ def program_text(trace, progid):
     return ""
 
 
+CHUNK_LINES = 45000      # a trace longer than this is folded in parallel pieces cut at program boundaries
+
+
+def split_trace(trace, max_parts=14):
+    """cut `trace` into at most max_parts files at "Prog" lines; returns [(path, first line number - 1)]"""
+    with open(trace) as f:
+        lines = f.readlines()
+    if len(lines) <= CHUNK_LINES:
+        return [(trace, 0)]
+    nparts = min(max_parts, len(lines) // CHUNK_LINES + 1)
+    target = len(lines) // nparts + 1
+    parts, start = [], 0
+    while start < len(lines):
+        end = min(len(lines), start + target)
+        while end < len(lines) and not lines[end].startswith('{"e":"Prog"'):
+            end += 1
+        path = "%s.part%02d" % (trace, len(parts))
+        with open(path, "w") as f:
+            f.writelines(lines[start:end])
+        parts.append((path, start))
+        start = end
+    return parts
+
+
 def fold_monitors(pid, v, trace, desc):
-    tv = vlib.tlc(pid, "KMonTrace", "KMonTrace.cfg", workers=1, timeout=3000, env={"TRACE": trace},
-                  tag="mon_" + os.path.basename(trace), heap="12g")
-    if tv.rc != 0 or "CONSUMED" not in tv.out:
-        raise vlib.MachineryError("monitor folding failed on %s:\n%s" % (trace, tv.out[-3000:]))
-    v.add_tlc(tv, "KMon monitors folded over " + desc)
+    from concurrent.futures import ThreadPoolExecutor
+    parts = split_trace(trace)
+
+    def one(part):
+        path, off = part
+        tv = vlib.tlc(pid, "KMonTrace", "KMonTrace.cfg", workers=1, timeout=3000, env={"TRACE": path},
+                      tag="mon_" + os.path.basename(path), heap="12g" if len(parts) == 1 else "4g")
+        if tv.rc != 0 or "CONSUMED" not in tv.out:
+            raise vlib.MachineryError("monitor folding failed on %s:\n%s" % (path, tv.out[-3000:]))
+        return tv, off
+    with ThreadPoolExecutor(max_workers=min(len(parts), max(1, vlib.NCPU - 2))) as ex:
+        results = list(ex.map(one, parts))
     rej = []
-    for m in RE_REJ.finditer(tv.out):
-        rej.append(dict(line=int(m.group(1)), prop=m.group(2), rule=m.group(3), prog=int(m.group(4))))
+    for i, (tv, off) in enumerate(results):
+        v.add_tlc(tv, "KMon monitors folded over %s%s" % (desc, "" if len(parts) == 1 else " (part %d of %d)" % (i + 1, len(parts))))
+        for m in RE_REJ.finditer(tv.out):
+            rej.append(dict(line=int(m.group(1)) + off, prop=m.group(2), rule=m.group(3), prog=int(m.group(4))))
+    for path, _ in parts:
+        if path != trace:
+            os.remove(path)
     return rej
 
 
